@@ -15,7 +15,7 @@ for seed in $seeds; do
   c=${seed%%-*}
   git -C $WT checkout -q -- .
   git -C $WT apply /verif/seeded/$seed/patch.diff || { echo -e "$seed\t$c\tPATCH-FAILS" >> $OUT; continue; }
-  (cd $V && VERIF_REPO=$WT PYTHONPATH=$WT timeout 1500 ./check $c --workers ${W:-8} >/tmp/own_last_$TAG.txt 2>/dev/null); rc=$?
+  (cd $V && VERIF_REPO=$WT PYTHONPATH=$WT timeout 1500 ./check $c --workers ${W:-8} ${NOMIN:+--no-min} >/tmp/own_last_$TAG.txt 2>/dev/null); rc=$?
   first=$(grep -m1 "^violation:" /tmp/own_last_$TAG.txt | cut -c1-400)
   hist=$(grep -c "history-dependent" /tmp/own_last_$TAG.txt)
   echo -e "$seed\t$c\t$rc\t$hist\t$first" >> $OUT
